@@ -26,6 +26,13 @@ PIPELINES = {
     "merge": (["--merge"], False),
     "csv": (["-o", "csv", "--select", ".=v", "--select", "(number? .)=n"], True),
     "text": (["-o", "text", "--headers", "--select", ".=v"], True),
+    # limits: the last wanted row is where the pipeline decides to stop, a write fault there must still surface
+    "take1": (["--take", "1"], True),
+    "take2": (["--take", "2"], True),
+    "skip-take": (["--skip", "1", "--take", "2", "--select", ".=v"], True),
+    "sort-take": (["--sort-by", ".", "--take", "2"], False),
+    "unique-take": (["--unique", "--take", "3"], True),
+    "merge-take": (["--take", "2", "--merge"], False),
 }
 POLICIES = ("ignore", "stdout", "stderr", "panic")
 
@@ -160,7 +167,7 @@ def worker(ctx):
 def run(env):
     quick = env.tier == "quick"
     stats = core.run_workers(__name__, "worker", PROP, env.tier, env.seed, env.driver, env.hooks_on,
-                             45 if quick else 600, {"units_per_worker": 25 if quick else 1500})
+                             45 if quick else 600, {"units_per_worker": 40 if quick else 1500})
     return core.finish(PROP, env.tier, env.seed, LEVEL, stats, env.t0, RULE, min_conclusive=50 if quick else 1000,
                        exhaustive=True,
                        extra={"explanation": "exhaustive = every byte offset of every generated input/output was used as a fault point; the inputs themselves are sampled"},
